@@ -46,6 +46,7 @@ type TaskLane struct {
 
 func (tl *TaskLane) startQueue(index int) {
 	defer tl.wg.Done()
+	defer verifPoint(tl.ctx, "queue.exit", index)
 
 	var task Task
 	for {
@@ -82,6 +83,7 @@ func (tl *TaskLane) startQueue(index int) {
 
 func (tl *TaskLane) startWorker(index int) {
 	defer tl.wg.Done()
+	defer verifPoint(tl.ctx, "worker.exit", index)
 
 	var task Task
 	for {
